@@ -785,6 +785,10 @@ pub fn c04(ctx: &Ctx) -> PropResult {
     for src in crate::props6::self_containing_rebind_family() {
         cases.push(run_case(src, "self-containing").tag("allow-cyclic"));
     }
+    // (appended, round 16) l[i] <- v over a slot that holds an equal-looking other value
+    for src in crate::props6::indexed_store_equal_contents_family() {
+        cases.push(run_case(src, "indexed-store-equal-contents"));
+    }
     let stats = run_cases(&ctx.driver, cases, &no_panic_oracle, &no_known, ctx.threads);
     PropResult {
         stats,
@@ -1080,6 +1084,10 @@ pub fn c05(ctx: &Ctx) -> PropResult {
     // (appended) an expression that starts with a parenthesis and continues after it, wherever an expression stands
     for (a, b) in crate::props6::leading_paren_positions() {
         cases.push(run_case(a, "expression-position").aux(b));
+    }
+    // (appended, round 16) an assignment whose value is an assignment, plain and parenthesised
+    for (a, b) in crate::props6::chained_set_twins() {
+        cases.push(run_case(a, "chained-assignment").aux(b));
     }
     // the oracle runs the fully parenthesised twin on the implementation and compares behaviours
     let oracle = |case: &Case, out: &Outcome| -> Result<bool, String> {
